@@ -498,6 +498,43 @@ def D34(tmp):
     return not os.path.exists(victim), "pre-existing ./.torrent deleted by the writability probe"
 
 
+def D35(tmp):
+    """single-file v2/hybrid torrent must be rebuilt as dest/<name> (a file), not dest/<name>/<name>"""
+    from torrentfile.rebuild import Assembler
+    bad = []
+    for cls, kw in (("TorrentFileV2", {}), ("TorrentAssembler", {"meta_version": "3"})):
+        t = os.path.join(tmp, cls)
+        f = os.path.join(t, "src", "single.bin")
+        _mk(os.path.join(t, "src"), {"single.bin": PL + 5})
+        mf = os.path.join(t, "m.torrent")
+        _create(cls, f, mf, piece_length=PL)
+        dest = os.path.join(t, "dest")
+        os.makedirs(dest)
+        _quiet(lambda: Assembler([mf], [os.path.join(t, "src")], dest).assemble_torrents())
+        if not os.path.isfile(os.path.join(dest, "single.bin")):
+            bad.append(f"{cls}: dest holds {sorted(os.listdir(dest))}, dest/single.bin is not a file")
+    return bool(bad), "; ".join(bad)
+
+
+def D36(tmp):
+    """rebuild into a destination given as '.' (single path element) must still copy"""
+    from torrentfile.rebuild import Assembler
+    f = os.path.join(tmp, "src", "single.bin")
+    _mk(os.path.join(tmp, "src"), {"single.bin": 100})
+    mf = os.path.join(tmp, "m.torrent")
+    _create("TorrentFile", f, mf, piece_length=PL)
+    dest = os.path.join(tmp, "dest")
+    os.makedirs(dest)
+    cwd = os.getcwd()
+    os.chdir(dest)
+    try:
+        n = _quiet(lambda: Assembler([mf], [os.path.join(tmp, "src")], ".").assemble_torrents())
+    finally:
+        os.chdir(cwd)
+    ok = os.path.isfile(os.path.join(dest, "single.bin"))
+    return not ok, f"rebuild -d . counted {n} file(s), destination holds {sorted(os.listdir(dest))}"
+
+
 # D27/D28: known findings of rebuild
 def D27(tmp):
     def scatter(d, src):
